@@ -68,6 +68,8 @@ def gen_beh(rng, typ, feats) -> Dict[str, Any]:
         b["pers_offset"] = rng.choice([1, 1, 2])
     if feats["react"] and rng.random() < 0.5:
         b["react"] = True
+    if feats.get("reuse_reply") and rng.random() < 0.6:
+        b["reuse_reply"] = True      # (in-process only) one reply dict, re-filled for every get_data call
     return b
 
 
@@ -109,6 +111,7 @@ def swarm_features(rng, force=None) -> Dict[str, bool]:
         "pers_offset": rng.random() < 0.12,  # replies dated a constant offset after the step
         "children": rng.random() < 0.1,      # child entities of another model as connection ends
         "none_values": rng.random() < 0.1,   # event outputs that are present but None
+        "reuse_reply": rng.random() < 0.1,   # in-process simulators that re-use their reply dict
     }
     if force:
         f.update(force)
